@@ -387,6 +387,7 @@ Verdict == CASE C.judge = "single" -> VSingle
              [] C.judge = "history" -> VHistory
              [] C.judge = "scale" -> VScale
              [] C.judge = "equiv" -> VEquiv
+             [] C.judge = "raw" -> [eq |-> IF Faulted THEN "fault-" \o status ELSE "ok"]
 
 PackedInputs == [nm \in DOMAIN content |-> S!Pack(content[nm], Fmt(nm), TDims(nm))]
 LastOut == IF Len(snaps) = 0 THEN [why |-> "none", levels |-> <<>>, vals |-> <<>>]
